@@ -25,7 +25,7 @@ class Interchain(Family):
             runs.append(("InterchainXMC.tla", "InterchainXMC_thorough.cfg" if tier == "thorough" else "InterchainXMC.cfg", 12, 3000))
         if prop == "C16":
             # operational status machines (stacked proposals, cascades) against the edge sets and the history-aware formula
-            for k in ("appchain", "service", "role"):
+            for k in ("appchain", "service", "role", "node"):
                 runs.append(("LifecycleMC.tla", "LifecycleMC_%s.cfg" % k, 2, 600))
         return runs
 
